@@ -172,10 +172,11 @@ let handle (x : sexp) : (string * string) list =
       (if List.exists (fun (_, k) -> k = "nan_data") r.faults then ["nan-accepted"] else [])
       @ (if List.exists (fun (_, k) -> k = "status_with_data") r.faults then ["status-ignored-with-data"] else [])
       @ (if List.exists (fun (f, k) -> (k = "count_less" || k = "count_more") && kind_is f FEntity) r.faults then ["entity-count-ignored"] else [])
-      @ (if List.exists (fun (rq : request) ->
-             List.exists (fun rep ->
-               contains (string_of_bytes rep) ":null" &&
-               not (List.exists (fun (r0 : request) -> r0.rq_fetch = rq.rq_fetch && List.mem rep r0.rq_reps) base.reqs)) rq.rq_reps) r.reqs
+      @ ((* a dependant of a failed fetch still sent a request, with a required field rendered as null *)
+         if List.exists (fun (rq : request) ->
+             let others = List.filter (fun (f, _) -> f <> int_of_n rq.rq_fetch) r.faults in
+             List.mem rq.rq_fetch (affected fetches (List.map (fun (f, _) -> n_of_int f) others)) &&
+             List.exists (fun rep -> contains (string_of_bytes rep) ":null") rq.rq_reps) r.reqs
          then ["nullable-requires-null-sent"] else []) in
     let add i (r : run) s d =
       let fl = String.concat "," (List.map (fun (f, k) -> Printf.sprintf "%d:%s" f k) r.faults) in
@@ -194,7 +195,8 @@ let handle (x : sexp) : (string * string) list =
        | _ ->
          if not r.valid then add i r "specfail" "valid_response the response is not valid JSON"
          else if not r.env then add i r "specfail" "valid_response the envelope is not {errors?,data}";
-         let nhard = List.length (List.filter (fun (f, k) -> hard_kind k && List.mem f base_fids) r.faults) in
+         let sent_fids = List.map (fun (rq : request) -> int_of_n rq.rq_fetch) r.reqs in
+         let nhard = List.length (List.filter (fun (f, k) -> hard_kind k && List.mem f sent_fids) r.faults) in
          if r.valid && not (errors_nonempty_b (n_of_int nhard) (n_of_int r.nerr)) then
            add i r "specfail" "errors_nonempty a request failed but the response reports no error";
          (match r.data with
